@@ -52,6 +52,9 @@ type KMS struct {
 	Cancels   map[int]bool
 	OnCancel  func()
 	Cancelled int
+	// FailEncrypts > 0 makes that many following EncryptKey calls fail (DecryptKey keeps working): the KMS cannot
+	// wrap new system keys for a while.
+	FailEncrypts int
 }
 
 // NewKMS wraps inner.
@@ -90,6 +93,13 @@ func (k *KMS) EncryptKey(ctx context.Context, key []byte) ([]byte, error) {
 		out []byte
 		err error
 	)
+	k.mu.Lock()
+	if !fault && k.FailEncrypts > 0 {
+		k.FailEncrypts--
+		fault = true
+		c.Fault = true
+	}
+	k.mu.Unlock()
 	if fault {
 		err = fmt.Errorf("kms encrypt: %w", ErrInjected)
 	} else {
